@@ -7,6 +7,6 @@ SetToSortedSeq(S) == LET RECURSIVE Sq(_)
                      IN Sq(S)
 Emit == phase = "done" =>
           PrintT(ToJson([mode |-> cfg.mode, frames |-> cfg.frames, garbage |-> cfg.garbage,
-                         cuts |-> SetToSortedSeq(cfg.cuts), trunc |-> cfg.trunc, end |-> cfg.end,
+                         cuts |-> SetToSortedSeq(cfg.cuts), trunc |-> cfg.trunc, end |-> cfg.end, size |-> cfg.size,
                          must |-> Must(cfg), k |-> K(cfg), model |-> result]))
 =============================================================================
